@@ -2019,6 +2019,246 @@ Proof.
   - intros z Hz. destruct (D z Hz) as [Hl|(l & r & E & _)]; [left; exact Hl|].
     exfalso. apply (leaf_not_parent ch [k] l r Hc E). reflexivity.
 Qed.
+
+Definition fullinfo (i : ninfo) : Prop :=
+  exists inv zf lg zs, i_involved i = Some inv /\ i_flops i = Some zf /\ i_legs i = Some lg /\ i_size i = Some zs /\
+                       (lmem ind lg = true -> lmem ind inv = true).
+
+(* during the loop of remove_ind: the nodes still to do are right for the OLD sliced set and
+   fully cached, the others are right for the NEW one; the running totals always match the caches *)
+Definition Mix (todo : list node) (s : tstate) : Prop :=
+  children_ok (children s) /\ NoDup (nkeys (info s)) /\ sliced s = sl' /\ mult s = multiplicity n sl' /\
+  trk_flops s = true /\ trk_write s = true /\ trk_size s = true /\
+  (tot_flops (nkeys (children s)) s /\ tot_write (nkeys (children s)) s /\ tot_size (nkeys (children s)) s) /\
+  forall nd i, nget nd (info s) = Some i ->
+    good_node nd /\ (length nd = 1 \/ In nd (nkeys (children s))) /\
+    (In nd todo -> node_inv (children s) sl nd i /\ (length nd <> 1 -> fullinfo i)) /\
+    (~ In nd todo -> node_inv (children s) sl' nd i).
+
+Lemma Mix_done s : Mix [] s -> InvC s.
+Proof.
+  intros (H1&H2&H3&H4&_&_&_&HT&HN'). split; [|apply totals_split, HT].
+  unfold InvS. rewrite H3. split; [exact H1|]. split; [exact H2|]. split; [|exact H4].
+  intros nd i Hi. destruct (HN' nd i Hi) as (G&_&_&Hd'). split; [exact G|apply Hd'; intros []].
+Qed.
+
+Lemma Mix_step nd todo s i : Mix (nd :: todo) s -> ~ In nd todo -> nget nd (info s) = Some i ->
+  Mix todo (remove_ind_node n ind d s nd) /\ nkeys (info (remove_ind_node n ind d s nd)) = nkeys (info s).
+Proof.
+  intros (H1&H2&H3&H4&Tf&Tw&Ts&(T1&T2&T3)&HN') Hnt Hi.
+  destruct (HN' nd i Hi) as (G & Hkey & Htodo & _). destruct (Htodo (or_introl eq_refl)) as [Hni Hfull].
+  destruct (Nat.eq_dec (length nd) 1) as [E1|E1].
+  - (* a leaf *)
+    rewrite (len1 nd E1) in *. set (k := hd 0 nd) in *.
+    assert (Hnk : ~ In [k] (nkeys (children s))).
+    { intros Hin. apply nget_in_keys in Hin. destruct (nget [k] (children s)) as [[l r]|] eqn:E; [|congruence].
+      apply (leaf_not_parent _ [k] l r H1 E). reflexivity. }
+    unfold remove_ind_node. cbn [length Nat.eqb hd].
+    destruct (memb ind (nth k (inputs n) [])) eqn:Em.
+    + (* its term carries the index: the leaf is reset *)
+      unfold remove_node. cbn [length Nat.eqb hd]. unfold clear_info.
+      set (sc := upd_info [k] (fun _ => noinfo) s).
+      assert (Sc : stage s [k] sc noinfo) by (apply (stage_upd s [k] s i (fun _ => noinfo)), stage_refl, Hi).
+      destruct (upd_info_fields [k] (fun _ => noinfo) s) as (F1&F2&F3&F4&F5&F6&F7&F8&F9&F10). fold sc in F1, F2, F3, F4, F5, F6, F7, F8, F9, F10.
+      set (sF := set_sliced_inputs _ _).
+      assert (SF : stage s [k] sF noinfo) by (apply (stage_fields s [k] sc); try reflexivity; exact Sc).
+      destruct SF as (A1&A2&A3&A4&A5&A6&A7&A8&A9). split; [|exact A3].
+      unfold Mix. rewrite A4, A5, A6, A7, A8, A9. split; [exact H1|]. split; [rewrite A3; exact H2|].
+      split; [exact H3|]. split; [exact H4|]. split; [exact Tf|]. split; [exact Tw|]. split; [exact Ts|]. split.
+      * apply (totals_other_node s sF _ [k]); auto.
+      * intros q j Hq. destruct (node_eq_dec q [k]) as [->|Hqn].
+        -- rewrite A1 in Hq. injection Hq as <-. split; [exact G|]. split; [left; reflexivity|].
+           split; [intros Hc; contradiction|intros _; apply node_inv_noinfo].
+        -- rewrite A2 in Hq by exact Hqn. destruct (HN' q j Hq) as (Gq & Kq & Tq & Dq).
+           split; [exact Gq|]. split; [exact Kq|]. split.
+           ++ intros Hin. apply Tq. right. exact Hin.
+           ++ intros Hnin. apply Dq. intros [Hc|Hc]; [congruence|contradiction].
+    + (* untouched *)
+      split; [|reflexivity]. unfold Mix. split; [exact H1|]. split; [exact H2|]. split; [exact H3|]. split; [exact H4|].
+      split; [exact Tf|]. split; [exact Tw|]. split; [exact Ts|]. split; [auto|].
+      intros q j Hq. destruct (HN' q j Hq) as (Gq & Kq & Tq & Dq).
+      split; [exact Gq|]. split; [exact Kq|]. split; [intros Hin; apply Tq; right; exact Hin|].
+      intros Hnin. destruct (node_eq_dec q [k]) as [->|Hqn].
+      * rewrite Hi in Hq. injection Hq as <-.
+        apply (leaf_node_same _ k i H1); [apply memb_false, Em|exact Hni].
+      * apply Dq. intros [Hc|Hc]; [congruence|contradiction].
+  - (* an internal node *)
+    destruct (Hfull E1) as (inv & zf & lg & zs & Hinv & Hzf & Hlg & Hzs & HP3).
+    destruct (rin_internal ind d s nd i inv zf lg zs E1 Hi Hinv Hzf Hlg Hzs) as (St & Ef & Ew & Ez).
+    cbn zeta in St, Ef, Ew, Ez. set (sF := remove_ind_node n ind d s nd) in *.
+    set (i' := if lmem ind inv then _ else i) in St.
+    assert (Hin : In nd (nkeys (children s))) by (destruct Hkey as [Hc|Hc]; [contradiction|exact Hc]).
+    assert (NDK : NoDup (nkeys (children s))) by apply H1.
+    (* the new cost fields *)
+    assert (Hcost : i_involved i' = Some (ldel ind inv) /\ i_legs i' = Some (ldel ind lg) /\
+                    i_flops i' = Some (zf / (if lmem ind inv then d else 1))%Z /\
+                    i_size i' = Some (zs / (if lmem ind lg then d else 1))%Z).
+    { unfold i'. destruct (lmem ind inv) eqn:Ev.
+      - destruct (lmem ind lg) eqn:El; cbn; repeat split; try reflexivity.
+        + rewrite (ldel_notin ind lg); [exact Hlg|]. apply lmem_false_notin, El.
+        + rewrite Z.div_1_r. exact Hzs.
+      - assert (El : lmem ind lg = false) by (destruct (lmem ind lg); [specialize (HP3 eq_refl); congruence|reflexivity]).
+        rewrite El, !Z.div_1_r. rewrite (ldel_notin ind inv) by (apply lmem_false_notin, Ev).
+        rewrite (ldel_notin ind lg) by (apply lmem_false_notin, El). auto. }
+    destruct Hcost as (Ci & Cl & Cf & Cs).
+    destruct St as (A1&A2&A3&A4&A5&A6&A7&A8&A9). split; [|exact A3].
+    assert (Rq : forall A (fld : ninfo -> option A) q, q <> nd -> rd fld sF q = rd fld s q).
+    { intros A fld q Hq. unfold rd. rewrite A2 by exact Hq. reflexivity. }
+    assert (Cfl_nd : cflops sF nd = (zf / (if lmem ind inv then d else 1))%Z) by (unfold cflops, rd; rewrite A1, Cf; reflexivity).
+    assert (Csz_nd : csize sF nd = (zs / (if lmem ind lg then d else 1))%Z) by (unfold csize, rd; rewrite A1, Cs; reflexivity).
+    assert (Cfl_old : cflops s nd = zf) by (unfold cflops, rd; rewrite Hi, Hzf; reflexivity).
+    assert (Csz_old : csize s nd = zs) by (unfold csize, rd; rewrite Hi, Hzs; reflexivity).
+    assert (HlP : lmem ind inv && lmem ind lg = lmem ind lg).
+    { destruct (lmem ind lg) eqn:El; [rewrite (HP3 eq_refl); reflexivity|apply andb_false_r]. }
+    unfold Mix. rewrite A4, A5, A6, A7, A8, A9. split; [exact H1|]. split; [rewrite A3; exact H2|].
+    split; [exact H3|]. split; [exact H4|]. split; [exact Tf|]. split; [exact Tw|]. split; [exact Ts|]. split; [split; [|split]|].
+    + (* flops *)
+      intros _. destruct (T1 Tf) as [Ta Tb]. split.
+      * rewrite (zsum_map_change (cflops s) (cflops sF) nd _ NDK Hin) by (intros q Hq; unfold cflops; rewrite Rq by exact Hq; reflexivity).
+        rewrite Ef, Ta, Cfl_nd, Cfl_old. destruct (lmem ind inv); [reflexivity|rewrite Z.div_1_r; lia].
+      * intros q Hq. destruct (node_eq_dec q nd) as [->|Hqn]; [unfold rd; rewrite A1, Cf; discriminate|rewrite Rq by exact Hqn; apply Tb, Hq].
+    + (* write *)
+      intros _. destruct (T2 Tw) as [Ta Tb]. split.
+      * rewrite (zsum_map_change (csize s) (csize sF) nd _ NDK Hin) by (intros q Hq; unfold csize; rewrite Rq by exact Hq; reflexivity).
+        rewrite Ew, HlP, Ta, Csz_nd, Csz_old. destruct (lmem ind lg); [reflexivity|rewrite Z.div_1_r; lia].
+      * intros q Hq. destruct (node_eq_dec q nd) as [->|Hqn]; [unfold rd; rewrite A1, Cs; discriminate|rewrite Rq by exact Hqn; apply Tb, Hq].
+    + (* the multiset of sizes *)
+      intros _. destruct (T3 Ts) as (Ta & Tb & Tc).
+      assert (Ez' : sizes_mc sF = if lmem ind lg then mc_add (zs / d)%Z (mc_discard zs (sizes_mc s)) else sizes_mc s) by (rewrite <- HlP; exact Ez).
+      split; [|split].
+      * rewrite Ez'. destruct (lmem ind lg); [apply mc_add_ok, mc_discard_ok, Ta|exact Ta].
+      * intros z. change (sizes_ sF) with (fst (sizes_mc sF)). rewrite Ez'.
+        rewrite (count_map_change (csize s) (csize sF) nd z _ NDK Hin) by (intros q Hq; unfold csize; rewrite Rq by exact Hq; reflexivity).
+        rewrite Csz_nd, Csz_old. destruct (lmem ind lg).
+        -- rewrite mc_add_count, (mc_discard_count _ z _ Ta). cbn [fst sizes_mc]. rewrite Tb. reflexivity.
+        -- cbn [fst sizes_mc]. rewrite Tb, Z.div_1_r.
+           assert (Hpos : (if Z.eqb z zs then 1 else 0) <= count_occ Z.eq_dec (map (csize s) (nkeys (children s))) z).
+           { destruct (Z.eqb_spec z zs) as [->|]; [|lia]. rewrite <- Csz_old. apply count_occ_In, in_map, Hin. }
+           lia.
+      * intros q Hq. destruct (node_eq_dec q nd) as [->|Hqn]; [unfold rd; rewrite A1, Cs; discriminate|rewrite Rq by exact Hqn; apply Tc, Hq].
+    + intros q j Hq. destruct (node_eq_dec q nd) as [->|Hqn].
+      * rewrite A1 in Hq. injection Hq as <-. split; [exact G|]. split; [exact Hkey|].
+        split; [intros Hc; contradiction|intros _].
+        apply (node_more _ nd i i' inv zf lg zs); assumption.
+      * rewrite A2 in Hq by exact Hqn. destruct (HN' q j Hq) as (Gq & Kq & Tq & Dq).
+        split; [exact Gq|]. split; [exact Kq|]. split.
+        -- intros Hin'. apply Tq. right. exact Hin'.
+        -- intros Hnin. apply Dq. intros [Hc|Hc]; [congruence|contradiction].
+Qed.
+
+Lemma Mix_fold L : forall s, NoDup L -> (forall nd, In nd L -> nget nd (info s) <> None) -> Mix L s ->
+  Mix [] (fold_left (remove_ind_node n ind d) L s).
+Proof.
+  induction L as [|nd L IH]; intros s ND Hk HM; cbn [fold_left]; [exact HM|].
+  apply NoDup_cons_iff in ND. destruct ND as [Hn ND'].
+  destruct (nget nd (info s)) as [i|] eqn:Ei; [|exfalso; apply (Hk nd (or_introl eq_refl)); exact Ei].
+  destruct (Mix_step nd L s i HM Hn Ei) as [HM' Ek]. apply IH; [exact ND'| |exact HM'].
+  intros q Hq. apply nget_in_keys. unfold nkeys in *. rewrite Ek. apply nget_in_keys, Hk. right. exact Hq.
+Qed.
 End RemoveInd.
+
+(* the population phase of remove_ind *)
+Definition populate (s : tstate) : tstate :=
+  fold_left (fun s (p : node * (node * node)) => fst (g_legs n (fst (g_involved n s (fst p))) (fst p))) (children s) s.
+Lemma populate_fold (L : list (node * (node * node))) : forall s, InvC s -> (forall p, In p L -> In (fst p) (nkeys (children s))) ->
+  InvC (fold_left (fun s p => fst (g_legs n (fst (g_involved n s (fst p))) (fst p))) L s) /\
+  Ext s (fold_left (fun s p => fst (g_legs n (fst (g_involved n s (fst p))) (fst p))) L s).
+Proof.
+  induction L as [|p L IH]; intros s HI HL; cbn [fold_left]; [split; [exact HI|apply Ext_refl]|].
+  destruct HI as [HS HT]. pose proof (child_key_good s (fst p) HS (HL p (or_introl eq_refl))) as HG.
+  destruct (g_involved_inv s (fst p) HS HG) as (A1 & B1 & _).
+  destruct (g_legs_inv _ (fst p) A1 HG) as (A2 & B2 & _).
+  set (s2 := fst (g_legs n (fst (g_involved n s (fst p))) (fst p))) in *.
+  assert (B : Ext s s2) by (eapply Ext_trans; eassumption).
+  destruct (IH s2) as [A' B'].
+  - split; [exact A2|apply (totals_Ext s); assumption].
+  - intros q Hq. destruct B as (Ech&_). rewrite Ech. apply HL. right. exact Hq.
+  - split; [exact A'|eapply Ext_trans; eassumption].
+Qed.
+Lemma populate_inv s : InvC s -> InvC (populate s) /\ Ext s (populate s).
+Proof.
+  intros HI. apply populate_fold; [exact HI|]. intros p Hp. unfold nkeys. apply in_map, Hp.
+Qed.
+Lemma stats_flags s : stats_pre false s ->
+  trk_flops (contract_stats n false s) = true /\ trk_write (contract_stats n false s) = true /\
+  trk_size (contract_stats n false s) = true.
+Proof.
+  intros Hpre. unfold contract_stats. destruct (false || negb (trk_flops s && trk_write s && trk_size s)) eqn:Ec.
+  - destruct (Hpre Ec) as (nodes & Htr & _).
+    change (traverse n (set_sizes mc_empty (set_write 0%Z (set_flops 0%Z s)))) with (traverse n s). rewrite Htr.
+    cbn. auto.
+  - cbn in Ec. apply negb_false_iff in Ec. apply andb_true_iff in Ec. destruct Ec as [Ec E3].
+    apply andb_true_iff in Ec. destruct Ec as [E1 E2]. auto.
+Qed.
+
+Definition rm_pre (ind : ix) (s : tstate) : Prop :=
+  ~ In ind (removed (sliced s)) /\ stats_pre false s /\ (0 < zget ind (szd n))%Z /\
+  forall nd i, nget nd (info (populate (contract_stats n false s))) = Some i ->
+    (length nd = 1 \/ In nd (nkeys (children s))) /\ (length nd <> 1 -> fullinfo ind i).
+
+Lemma multiplicity_perm l1 l2 : Permutation l1 l2 -> multiplicity n l1 = multiplicity n l2.
+Proof. intros H. unfold multiplicity. apply zprod_perm, Permutation_map, H. Qed.
+
+Lemma contract_stats_frame force s : InvC s -> stats_pre force s ->
+  children (contract_stats n force s) = children s /\ sliced (contract_stats n force s) = sliced s /\
+  mult (contract_stats n force s) = mult s.
+Proof.
+  intros [HS HT] Hpre. unfold contract_stats.
+  destruct (force || negb (trk_flops s && trk_write s && trk_size s)) eqn:Ec; [|auto].
+  destruct (Hpre Ec) as (nodes & Htr & HP & Hinfo).
+  set (s0 := set_sizes mc_empty (set_write 0%Z (set_flops 0%Z s))).
+  change (traverse n s0) with (traverse n s). rewrite Htr.
+  assert (HS0 : InvS s0) by (apply (InvS_struct s); [unfold same_struct; repeat split; reflexivity|exact HS]).
+  assert (HR0 : raw3 [] s0).
+  { unfold raw3, sumf, sumw, sums. split; [split; [reflexivity|intros q []]|]. split; [split; [reflexivity|intros q []]|].
+    split; [exact mc_ok_empty|]. split; [intros z; reflexivity|intros q []]. }
+  destruct (stats_body_inv nodes [] s0 HS0) as (_ & (B1&B2&B3&_) & _); [|exact HR0|].
+  { intros plr Hp. assert (Hk : In (fst plr) (nkeys (children s))) by (apply (Permutation_in _ HP), in_map, Hp).
+    split; [exact Hk|apply Hinfo, Hk]. }
+  cbn [set_trk children sliced mult]. auto.
+Qed.
+
+Theorem remove_ind_inv ind pj s : InvC s -> rm_pre ind s -> InvC (remove_ind n ind pj s).
+Proof.
+  intros HI (Hfresh & Hst & Hpos & Hfull). unfold remove_ind.
+  destruct (memb ind (removed (sliced s))) eqn:Em; [apply memb_In in Em; contradiction|].
+  pose proof (contract_stats_inv false s HI Hst) as HI1.
+  destruct (stats_flags s Hst) as (Tf1 & Tw1 & Ts1).
+  destruct (contract_stats_frame false s HI Hst) as (Ech1 & Esl1 & Em1).
+  set (s1 := contract_stats n false s) in *.
+  destruct (populate_inv s1 HI1) as [HI2 E12]. fold (populate s1). fold (populate s1) in Hfull. set (s2 := populate s1) in *.
+  destruct E12 as (Ech2&Esl2&Em2&Ef2&Ew2&Es2&_).
+  set (sl := sliced s) in *. set (x := mkSl ind pj).
+  set (sl' := sort_by (sl_le n) (sliced (match pj with None => set_mult (mult s2 * zget ind (szd n))%Z s2 | Some _ => s2 end) ++ [x])).
+  assert (Esl3 : sliced (match pj with None => set_mult (mult s2 * zget ind (szd n))%Z s2 | Some _ => s2 end) = sl).
+  { destruct pj; cbn; congruence. }
+  assert (HPsl : Permutation sl' (sl ++ [x])) by (unfold sl'; rewrite Esl3; apply sort_by_perm).
+  assert (Hrem : forall j, In j (removed sl') <-> j = ind \/ In j (removed sl)).
+  { intros j. unfold removed. split.
+    - intros H. apply (Permutation_in _ (Permutation_map sl_ix HPsl)) in H. rewrite map_app, in_app_iff in H. cbn in H. destruct H as [H|[H|[]]]; [right; exact H|left; symmetry; exact H].
+    - intros H. apply (Permutation_in _ (Permutation_sym (Permutation_map sl_ix HPsl))). rewrite map_app, in_app_iff. cbn. destruct H as [H|H]; [right; left; symmetry; exact H|left; exact H]. }
+  set (s3 := match pj with None => set_mult (mult s2 * zget ind (szd n))%Z s2 | Some _ => s2 end) in *.
+  set (s4 := set_sliced sl' s3).
+  assert (Einfo4 : info s4 = info s2) by (unfold s4, s3; destruct pj; reflexivity).
+  assert (Ech4 : children s4 = children s2) by (unfold s4, s3; destruct pj; reflexivity).
+  destruct HI2 as [(C1&C2&C3&C5) HT2].
+  assert (HM : Mix sl sl' ind (nkeys (info s4)) s4).
+  { unfold Mix. rewrite Ech4, Einfo4. split; [exact C1|]. split; [exact C2|]. split; [reflexivity|]. split.
+    - rewrite (multiplicity_perm _ _ HPsl). unfold x. rewrite (slicing_scales_multiplicity n sl ind pj).
+      unfold s4, s3. destruct pj; cbn; rewrite C5, Esl2, Esl1; fold sl; lia.
+    - split; [unfold s4, s3; destruct pj; cbn; congruence|]. split; [unfold s4, s3; destruct pj; cbn; congruence|].
+      split; [unfold s4, s3; destruct pj; cbn; congruence|]. split.
+      + apply totals_split in HT2.
+        assert (Hsame : forall K, (tot_flops K s2 /\ tot_write K s2 /\ tot_size K s2) -> (tot_flops K s4 /\ tot_write K s4 /\ tot_size K s4)).
+        { intros K HK. unfold s4, s3. destruct pj; exact HK. }
+        apply Hsame, HT2.
+      + intros nd i Hi. destruct (C3 nd i Hi) as [G Hn]. destruct (Hfull nd i Hi) as [Hk Hf].
+        split; [exact G|]. split; [rewrite Ech2, Ech1; exact Hk|]. split.
+        * intros _. split; [rewrite Esl2, Esl1 in Hn; exact Hn|exact Hf].
+        * intros Hnin. exfalso. apply Hnin. apply nget_in_keys. congruence. }
+  assert (HF := Mix_fold sl sl' ind (zget ind (szd n)) Hrem eq_refl Hpos (nkeys (info s4)) s4).
+  apply reset_recipes_inv. apply (Mix_done sl sl' ind). apply HF; [rewrite Einfo4; exact C2| |exact HM].
+  intros nd Hnd. apply nget_in_keys, Hnd.
+Qed.
 
 End Inv.
